@@ -198,6 +198,12 @@ def builtin_learner(lid, kind):
 BUILTIN_SHAPES = [
     dict(tr=[(0, 0, 0), (1, 0, 0), (1, 1, 0), (2, 1, 0)], ch=[0, 0, 0], fail=[], rej=[0], nact={0: 5, 1: 2, 2: 3}, n_int=40, lk={1: "eps"}, seed=2),
     dict(tr=[(0, 0, 0), (1, 0, 0), (0, 1, 0), (1, 2, 0)], ch=[1, 1], fail=[], lk={0: "corral", 1: "ucb", 2: "misguided"}),
+    # experiment seed 0 is a seed like any other (it must reach the workers as 0, not as "no seed"): PMF-answering learners and a
+    # RejectionCB without a seed of its own draw from it; a reduced configuration grid keeps the cost down
+    dict(tr=[(0, 0, 0), (1, 0, 0), (1, 1, 0)], ch=[0, 0], fail=[], rej=[0], nact={0: 4, 1: 3}, n_int=30, lk={1: "eps"}, seed=0,
+         grid=[dict(p=2, mc=0, mt=0), dict(p=1, mc=1, mt=0), dict(p=2, mc=1, mt=1)]),
+    dict(tr=[(0, 0, 0), (1, 0, 0), (0, 1, 0)], ch=[0, 1], fail=[], seed=0,
+         grid=[dict(p=2, mc=0, mt=0), dict(p=1, mc=1, mt=0), dict(p=2, mc=2, mt=1)]),
 ]
 
 RECORDS = [("reward", "action", "probability"), ("reward",), ("reward", "action", "probability", "context")]
